@@ -83,8 +83,10 @@ def scenario(services=None, fail=(), **kw):
 
 
 def scen_key(sc):
-    return "%ssvc=%s;cc=%d;v=%d;tun=%d;uni=%d;txt=%d;fail=%s" % (
+    return "%s%ssvc=%s;cc=%d;v=%d;tun=%d;uni=%d;txt=%d;fail=%s" % (
         ("dev=%s;" % sc["profile"]) if sc.get("profile") else "",
+        ("companion-real-connect,rejects=%s;" % ("+".join(sc["companion_device"].get("reject", [])) or "-"))
+        if sc.get("companion_device") else "",
         "+".join(sc["services"]), sc["companion_creds"], sc["video"], sc["tunnel"], sc["unified"], sc.get("txt", False),
         ".".join(map(str, sc["fail"])) or "-")
 
@@ -97,6 +99,22 @@ def device_scenario(profile, services=None, **kw):
     have = profile_protocols(profile)
     return scenario(have if services is None else [p for p in have if p in services], profile=profile,
                     video=DEVICE_PROFILES[profile]["video"], **kw)
+
+
+def real_connect_scenarios(patches):
+    """Companion's REAL connect callable against a fake device: every protocol set with Companion
+    (and the scanned devices that have it) x {the device answers everything, it rejects one of
+    the requests the connect sequence sends}.  The requests are discovered by running it once."""
+    probe = World(patches, scenario(["Companion"], companion_device={"reject": []}))
+    requests = list(probe.built.companion_requests)
+    out = []
+    bases = [dict(services=S) for S in subsets() if "Companion" in S]
+    for rej in [[]] + [[r] for r in requests]:
+        for b in bases:
+            out.append(scenario(companion_device={"reject": rej}, **b))
+        for profile in ("appletv4k", "homepod"):
+            out.append(device_scenario(profile, companion_device={"reject": rej}))
+    return out
 
 
 def device_scenarios():
@@ -158,6 +176,7 @@ def all_scenarios(patches, rng=None, extra=0):
     out += [scenario(S, video=False) for S in subsets() if "AirPlay" in S]
     out += [scenario(S, txt=True) for S in subsets()]          # services announcing real TXT records
     out += device_scenarios()                                  # real devices as the scanner sees them
+    out += real_connect_scenarios(patches)                     # Companion's real connect against a fake device
     out += failing_connect_scenarios()
     for cfg in path_configs():
         n = len(World(patches, scenario(**cfg)).built.queue)
@@ -187,6 +206,9 @@ class Patches:
         from pyatv import interface
         from tools.gen.c01 import build_world, public_members
 
+        import logging
+
+        logging.getLogger("pyatv").addHandler(logging.NullHandler())   # expected error paths are logged by pyatv: keep stderr quiet
         self.loop = loop
         self.log = []
         self.owner = {}          # id(instance) -> protocol name (current world)
@@ -322,6 +344,16 @@ class World:
         if self.atv is not None:
             self.relayers = {b.__name__: self.atv._interfaces[b] for b in patches.iface_classes}
         self.env = None
+
+    @property
+    def power_known(self):
+        """input of the model: Companion's real connect learnt the power state (a fact about the fake
+        device's answers, read from the real CompanionPower object)"""
+        from pyatv import interface
+
+        sd = self.connected.get("Companion")
+        power = sd.interfaces.get(interface.Power) if sd else None
+        return bool(getattr(power, "supports_power_updates", False))
 
     def genuine(self, proto, iface, name):
         sd = self.connected.get(proto)
@@ -572,10 +604,13 @@ def run_static(ctx, patches, scenarios, full_env):
         handlers = sorted(p.name for p in getattr(world.atv, "_protocol_handlers", {}))
         if handlers and handlers != sorted(world.S):
             ctx.disagree({"scenario": sc}, handlers, sorted(world.S), where="connected set (facade _protocol_handlers vs construction)")
-        ctx.note("scenario:" + ("native" if not (sc["tunnel"] or sc["unified"]) else "tunnel/unified")
+        ctx.note("scenario:" + ("companion-real-connect" if sc.get("companion_device") else "device" if sc.get("profile")
+                                else "native" if not (sc["tunnel"] or sc["unified"]) else "tunnel/unified")
                  + ("+failing-connect" if world.fail else ""))
-        rounds = [(t, None) for t in [None] + TEXT_ORDER]
-        pubs = world.S if (full_env or not world.fail) else world.S[:1]
+        # quick tier: scenarios with failing connects / Companion's real connect get a lighter treatment
+        light = (not full_env) and bool(world.fail or sc.get("companion_device"))
+        rounds = [(t, None) for t in ([None, TEXT_ORDER[len(scen_key(sc)) % 5]] if light else [None] + TEXT_ORDER)]
+        pubs = world.S[:1] if light else world.S
         for k, pub in enumerate(pubs):
             rounds.append((None, (pub, k)))
             rounds.append((None, (pub, k)))                      # the same call a second time
@@ -584,7 +619,7 @@ def run_static(ctx, patches, scenarios, full_env):
         # the implementations of one connected protocol fail at call time (NotSupportedError /
         # ProtocolError raised by their own code): the error must reach the caller and no other
         # protocol may execute the call
-        for k, who in enumerate(world.S if (full_env or not world.fail) else []):
+        for k, who in enumerate([] if light else world.S):
             rounds.append((None, None, (who, "NotSupportedError")))
             rounds.append((None, None, (who, "ProtocolError")))
             rounds.append((TEXT_ORDER[(k + 2) % 5], None, (who, "NotSupportedError")))
@@ -787,6 +822,9 @@ def run(ctx, only_static=None, only_history=None):
                 n = ctx.scale(40, 160)
                 maxlen = ctx.scale(12, 40)
                 pool = all_scenarios(patches)
+                first31 = pool[:31]
+                pool = [sc for sc in pool if (lambda w: not w.connect_error and w.S)(World(patches, sc))]   # a device object exists
+                pool = first31 + [sc for sc in pool if sc not in first31]
                 hist = []
                 for k in range(n):
                     sc = pool[30] if k % 5 == 0 else (rng.choice(pool[:31]) if k % 5 < 3 else rng.choice(pool))
